@@ -1070,7 +1070,10 @@ def rule_t4(P):
             t = blk["t"]
             if t["t"] == "call" and not blk["cl"]:
                 k = t["f"].get("k") or {}
-                if (k.get("res") or "").endswith("::add_anon_group") and len(t["d"]) == 1:
+                # a minted id: returned by add_anon_group, or by anything else that hands a NameId out of a NameBuilder (T10 reports those)
+                from_builder = (t.get("dty") or "").endswith("::NameId") and (b.get("impl_self") or "") != "fea_rs::compile::tables::name::NameBuilder" and \
+                    any(str(b["locals"][(a.get("m") or a.get("c"))[0]]).endswith("NameBuilder") for a in t["a"] if (a.get("m") or a.get("c")))
+                if ((k.get("res") or "").endswith("::add_anon_group") or from_builder) and len(t["d"]) == 1:
                     tainted[t["d"][0]] = t["l"]
                     n_src += 1
         if not tainted:
@@ -1276,7 +1279,8 @@ def rule_l7(P, tables):
         name = key.rsplit("::", 1)[1]
         ret = b["locals"][0]
         numeric = re.match(r"std::option::Option<(i\d+|u\d+|usize|isize|f32|f64|bool)>$", ret) and name.startswith("as_")
-        stringy = name.startswith("as_") and re.match(r"std::option::Option<&?(str|std::string::String|smol_str::SmolStr)>$", ret.replace("'_ ", "").replace("&'_ ", "&"))
+        stringy = (name.startswith("as_") and re.match(r"std::option::Option<&?(str|std::string::String|smol_str::SmolStr)>$", ret.replace("'_ ", "").replace("&'_ ", "&"))) or \
+                  (name.startswith("expect_") and re.match(r"std::result::Result<&?(str|std::string::String|smol_str::SmolStr), ", ret.replace("'_ ", "").replace("&'_ ", "&")))
         if not (numeric or stringy):
             continue
         # does it look at the variant itself?
@@ -1288,6 +1292,10 @@ def rule_l7(P, tables):
                 arms = set(t["v"])
         if arms is None:
             obl.append({"rule": "L7", "inst": f"Plist::{name} delegates to another accessor", "ok": True})
+            continue
+        callers = [c for c in P.rev_edges().get(key, ()) if not (P.bodies.get(c) or {}).get("test")]
+        if not callers:
+            obl.append({"rule": "L7", "inst": f"Plist::{name} has no caller in the workspace (unused API); nothing depends on its variant arms", "ok": True})
             continue
         n += 1
         need = ["String"] if numeric else ["Integer", "Float"]
@@ -1951,3 +1959,250 @@ def rule_t8(P):
     if n_cov < 2:
         raise E5Error(f"T8: only {n_cov} registrations traced to NamedInstance fields")
     return findings, obl, {"t8_registrations": len(sinks), "t8_emptiness_tests": len(sanit)}
+
+
+def rule_t9(P):
+    """'fully parseable by an independent reader': post format 2 stores each glyph name as a Pascal string and write-fonts' PString
+    writes `len as u8` followed by ALL the bytes, so a name longer than 255 bytes shifts every later name (external-crate narrowing,
+    outside E6's census).  Guard-dominates-sink rule: every call of Post::new_v2 in the backend is dominated by a call of a workspace
+    function that compares a `str::len` against a constant <= 255 and whose Result is examined (`?`)."""
+    from common import norm_fn
+    findings, obl = [], []
+
+    def family(k):
+        return [k] + [x for x in P.bodies if x.startswith(k + "::") and "#promoted" not in x]
+
+    def is_len_guard(k):
+        if k not in P.bodies or P.bodies[k].get("crate") not in ("fontbe", "fontc", "fontir", "fontdrasil"):
+            return False
+        has_len = has_cmp = False
+        for kk in family(k):
+            kb = P.bodies[kk]
+            small = set()
+            for blk in kb["blocks"]:
+                for st in blk["s"]:
+                    rv = st["rv"]
+                    for o in rv.get("o", []):
+                        c = o.get("k") or {}
+                        if "int" in c and c["int"].lstrip("-").isdigit() and 0 < int(c["int"]) <= 255 and rv.get("r") in ("use", "cast") and st["d"]:
+                            small.add(st["d"][0])
+            lens = set()
+            for blk in kb["blocks"]:
+                t = blk["t"]
+                if t["t"] == "call" and re.search(r"(core::str::\{impl#\d+\}|alloc::string::\{impl#\d+\})::len$", (t["f"].get("k") or {}).get("fn", "") or "") and t.get("d"):
+                    lens.add(t["d"][0])
+                    has_len = True
+            for blk in kb["blocks"]:
+                for st in blk["s"]:
+                    rv = st["rv"]
+                    if rv.get("r") == "bin" and rv.get("op") in ("Gt", "Ge", "Lt", "Le"):
+                        ops = rv.get("o", [])
+                        loc = [(o.get("m") or o.get("c") or [None])[0] for o in ops]
+                        cons = [int((o.get("k") or {}).get("int", "-1")) if (o.get("k") or {}).get("int", "x").isdigit() else None for o in ops]
+                        if any(l in lens for l in loc) and (any(l in small for l in loc) or any(c is not None and 0 < c <= 256 for c in cons)):
+                            has_cmp = True
+        return has_len and has_cmp
+
+    n = 0
+    for key, b in sorted(P.bodies.items()):
+        if "#promoted" in key:
+            continue
+        blocks = b["blocks"]
+        sites = [bi for bi, blk in enumerate(blocks) if blk["t"]["t"] == "call" and not blk.get("cl") and
+                 re.search(r"write_fonts::tables::post::\{impl#\d+\}::new_v2$", (blk["t"]["f"].get("k") or {}).get("res") or (blk["t"]["f"].get("k") or {}).get("fn") or "")]
+        if not sites:
+            continue
+        if b.get("crate") not in ("fontbe", "fontc"):
+            obl.append({"rule": "T9", "inst": f"{norm_fn(key)} builds a post table outside the compiler's backend (fea-rs's own command-line tool); not in scope", "ok": True})
+            continue
+        cfg = CFG(b)
+        dom = cfg.dominators()
+        for bi in sites:
+            n += 1
+            guards = []
+            for gi in dom.get(bi, ()):
+                t = blocks[gi]["t"]
+                if gi == bi or t["t"] != "call":
+                    continue
+                callee = (t["f"].get("k") or {}).get("res")
+                if callee and is_len_guard(callee):
+                    d = (t.get("d") or [None])[0]
+                    examined = any(bt["t"]["t"] == "call" and any((o.get("m") or o.get("c") or [None])[0] == d for o in bt["t"]["a"]) and
+                                   re.search(r"Try::branch$|::branch$", (bt["t"]["f"].get("k") or {}).get("fn", "") or "") for bt in blocks) or \
+                        any(st["rv"].get("r") == "discr" and (st["rv"].get("p") or [None])[0] == d for bt in blocks for st in bt["s"])
+                    if examined:
+                        guards.append((callee, t["l"]))
+            ok = bool(guards)
+            obl.append({"rule": "T9", "inst": f"{norm_fn(key)} line {blocks[bi]['t']['l']}: Post::new_v2 is dominated by a length check of the names "
+                                              f"({', '.join(norm_fn(g) + ' at line ' + str(l) for g, l in guards) or 'none'})", "ok": ok})
+            if not ok:
+                findings.append({"rule": "T9", "key": f"T9|{norm_fn(key)}|{sites.index(bi)}",
+                                 "msg": f"{key} builds the post table with Post::new_v2 without a dominating check that every glyph name fits a Pascal string: write-fonts writes `len as u8` and then "
+                                        f"all the bytes, so one glyph name longer than 255 bytes (a 300-byte name: reproduced, exit 0) makes every later name unreadable", "loc": P.site_loc(key, blocks[bi]["t"]["l"]), "detail": {}})
+    if n < 2:
+        raise E5Error(f"T9: only {n} Post::new_v2 call sites found in the backend")
+    return findings, obl, {"t9_post_v2_sites": n}
+
+
+def rule_t10(P):
+    """Feature parameters store name ids compactly: cvParameters keeps only FirstParamUILabelNameID and a count (label i is id
+    first+i), so the ids handed out for one feature must be FRESH and CONSECUTIVE.  T5 proves that for NameBuilder::add_anon_group
+    (the allocator advances on every path).  Census: add_anon_group is the only function that issues a NameId from a
+    `&mut NameBuilder`, and every call site in fea-rs that obtains a NameId from a NameBuilder resolves to it - an id-reusing or
+    caching issuer (as fontTools' addMultilingualName does) breaks the first+i addressing."""
+    from common import norm_fn
+    findings, obl = [], []
+    NB = "fea_rs::compile::tables::name::NameBuilder"
+    issuers = []
+    for k, b in sorted(P.bodies.items()):
+        if (b.get("impl_self") or "") == NB and b.get("dk") == "AssocFn" and b["locals"][0].endswith("::NameId"):
+            args = b["locals"][1:1 + b.get("argc", 0)]
+            issuers.append((k, any(a.startswith("&mut ") and a.endswith("NameBuilder") for a in args)))
+    if not any(k.endswith("::add_anon_group") for k, _ in issuers):
+        raise E5Error("T10: NameBuilder::add_anon_group not found")
+    for k, mut in issuers:
+        name = k.rsplit("::", 1)[1]
+        ok = name == "add_anon_group" or not mut
+        obl.append({"rule": "T10", "inst": f"NameBuilder::{name} returns a NameId ({'the fresh-id allocator T5 verifies' if name == 'add_anon_group' else ('read-only peek' if not mut else 'another issuer: reported if a first+i addressed site uses it')})", "ok": True})
+        if not ok:
+            findings.append({"rule": "T10", "key": f"T10|issuer|{name}", "msg": f"{k} issues name ids from a &mut NameBuilder but is not the allocator T5 verifies: cvParameters stores only the first "
+                             f"parameter-label id and a count, stylistic-set and size parameters one id per group - an issuer that can return an id handed out earlier (a cache of identical strings) "
+                             f"breaks the consecutive first+i addressing, so a label refers to another feature's name or to no record", "loc": P.body_file_line(k), "detail": {}})
+    n_calls = n_addr = 0
+    bad_issuers_used = set()
+    for k, b in sorted(P.bodies.items()):
+        if not k.startswith("fea_rs::") or "#promoted" in k or b.get("exp"):
+            continue
+        if (b.get("impl_self") or "") == NB:
+            continue   # the builder's own internals (add_anon_group peeks at next_name_id)
+        ordinal = 0
+        used = set()
+        for blk in b["blocks"]:
+            for st in blk["s"]:
+                rv = st["rv"]
+                if rv.get("p"):
+                    used.add(rv["p"][0])
+                for o in rv.get("o", []):
+                    pl = o.get("m") or o.get("c")
+                    if pl:
+                        used.add(pl[0])
+            tt = blk["t"]
+            for o in (tt.get("a") or []) + ([tt["o"]] if tt.get("o") else []):
+                if not isinstance(o, dict):
+                    continue
+                pl = o.get("m") or o.get("c")
+                if pl:
+                    used.add(pl[0])
+        for blk in b["blocks"]:
+            t = blk["t"]
+            if t["t"] != "call" or blk.get("cl") or not (t.get("dty") or "").endswith("::NameId"):
+                continue
+            tys = [b["locals"][(a.get("m") or a.get("c"))[0]] for a in t["a"] if (a.get("m") or a.get("c"))]
+            if not any(x.endswith("NameBuilder") for x in tys):
+                continue
+            res = (t["f"].get("k") or {}).get("res") or ""
+            n_calls += 1
+            d = t.get("d") or []
+            to_first = any(isinstance(e, str) and e.startswith("f:first_param_ui_label_name_id:") for e in d[1:])
+            if not to_first and len(d) == 1:
+                # moved into the field by a later statement?
+                for blk2 in b["blocks"]:
+                    for st in blk2["s"]:
+                        if any(isinstance(e, str) and e.startswith("f:first_param_ui_label_name_id:") for e in st["d"][1:]) and \
+                                any((o.get("m") or o.get("c") or [None])[0] == d[0] for o in st["rv"].get("o", [])):
+                            to_first = True
+            discarded = len(d) == 1 and d[0] not in used
+            if not (to_first or discarded):
+                obl.append({"rule": "T10", "inst": f"{norm_fn(k)} line {t['l']}: id from {res.rsplit('::', 1)[-1]} is stored in a field of its own (no first+i addressing)", "ok": True})
+                continue
+            n_addr += 1
+            ok = res.endswith("::add_anon_group")
+            why = "becomes FirstParamUILabelNameID" if to_first else "is issued only for its position after the first label (result unused)"
+            obl.append({"rule": "T10", "inst": f"{norm_fn(k)} line {t['l']}: the id that {why} comes from {res.rsplit('::', 1)[-1]}", "ok": ok})
+            if not ok:
+                bad_issuers_used.add(res)
+                findings.append({"rule": "T10", "key": f"T10|call|{norm_fn(k)}|{res.rsplit('::', 1)[-1]}|{ordinal}", "msg": f"{k}: the name id that {why} is obtained from {res}, not from the fresh-id allocator "
+                                 f"add_anon_group (whose advance-on-every-path T5 proves): parameter label i is addressed as first+i, so these ids must be fresh and consecutive - an issuer that can return "
+                                 f"an earlier id (identical strings cached) makes a label refer to another feature's name or to no record", "loc": P.site_loc(k, t["l"]), "detail": {}})
+                ordinal += 1
+    findings = [f for f in findings if not f["key"].startswith("T10|issuer|") or any(r.endswith("::" + f["key"].split("|")[2]) for r in bad_issuers_used)]
+    if n_addr < 2:
+        raise E5Error(f"T10: only {n_addr} first+i addressed issuing sites found (CvParams::build has 2)")
+    if n_calls < 10:
+        raise E5Error(f"T10: only {n_calls} id-obtaining call sites found in fea-rs (11 counted by hand)")
+    return findings, obl, {"t10_issuers": len(issuers), "t10_call_sites": n_calls, "t10_first_plus_i_sites": n_addr}
+
+
+def rule_l9(P, tables):
+    """'The same design in a .glyphs file and in a .glyphspackage gives the same font': the package loader rebuilds the single
+    file's glyph list from the files in glyphs/, identifying a glyph by the `glyphname` INSIDE each file.  Which directory entries
+    take part is therefore decided by the conditions inside the read_dir loop of RawFont::load_package, and nothing but the
+    extension test may exclude an entry.  Census of the deciders in that loop (calls whose result a branch switches on, apart from
+    the iterator's `next` and `?`): each is audited in tables/e5_tables.json with what it decides; a new one (a name filter, a size
+    test, ..) is a violation until it has been read."""
+    from common import norm_fn
+    findings, obl = [], []
+    ks = [k for k, b in P.bodies.items() if k.endswith("::load_package") and k.startswith("glyphs_reader::font::") and "#promoted" not in k and b.get("dk") == "AssocFn"]
+    if len(ks) != 1:
+        raise E5Error(f"L9: RawFont::load_package not found ({ks})")
+    key = ks[0]
+    b = P.bodies[key]
+    blocks = b["blocks"]
+    cfg = CFG(b)
+    N = [bi for bi, blk in enumerate(blocks) if blk["t"]["t"] == "call" and not blk.get("cl") and
+         ((blk["t"]["f"].get("k") or {}).get("fn") or "").endswith("Iterator::next") and "DirEntry" in (blk["t"].get("dty") or "")]
+    if len(N) != 1:
+        raise E5Error(f"L9: the read_dir loop of load_package was not identified ({len(N)} candidates)")
+    fwd = cfg.reachable_from(N[0])
+    loop = {x for x in fwd if N[0] in cfg.reachable_from(x)}
+    call_dest = {}
+    for x in loop:
+        t = blocks[x]["t"]
+        if t["t"] == "call" and len(t.get("d") or []) == 1:
+            call_dest[t["d"][0]] = t
+    defs = {}
+    for x in loop:
+        for st in blocks[x]["s"]:
+            if len(st["d"]) == 1:
+                defs.setdefault(st["d"][0], []).append(st["rv"])
+
+    def origin_call(l, depth=0):
+        if l in call_dest:
+            return call_dest[l]
+        if depth > 6:
+            return None
+        for rv in defs.get(l, []):
+            src = rv.get("p") or ((rv.get("o") or [{}])[0].get("m") or (rv.get("o") or [{}])[0].get("c"))
+            if src and rv.get("r") in ("use", "discr", "ref", "un", "cast"):
+                r = origin_call(src[0], depth + 1)
+                if r:
+                    return r
+        return None
+    audited = {e["callee"]: e["reason"] for e in tables.get("e5_tables", {}).get("package_entry_deciders", [])}
+    seen = []
+    n_sw = 0
+    for x in sorted(loop):
+        t = blocks[x]["t"]
+        if t["t"] != "sw":
+            continue
+        n_sw += 1
+        pl = t["o"].get("m") or t["o"].get("c")
+        c = origin_call(pl[0]) if pl else None
+        fn = ((c or {}).get("f", {}).get("k") or {}).get("fn") or "?"
+        short = "::".join(fn.split("::")[-2:]) if fn != "?" else "?"
+        if fn.endswith("Iterator::next") or fn.endswith("Try::branch"):
+            continue
+        seen.append((short, t["l"]))
+    for short, line in seen:
+        ok = short in audited
+        obl.append({"rule": "L9", "inst": f"load_package, read_dir loop, line {line}: branch on {short} - {audited.get(short, 'NOT AUDITED')[:100]}", "ok": ok})
+        if not ok:
+            findings.append({"rule": "L9", "key": f"L9|{norm_fn(key)}|{short}", "msg": f"{key}: inside the loop over the entries of glyphs/ a branch depends on {short}, which is not one of the audited "
+                             f"conditions ({', '.join(sorted(audited))}): the package loader identifies glyphs by the glyphname inside each .glyph file, so any further condition on the entry "
+                             f"(its file name, size, ..) can drop a glyph that the same design in a single .glyphs file has - the two containers then give different fonts", "loc": P.site_loc(key, line), "detail": {}})
+    for a in audited:
+        if a not in [s for s, _ in seen]:
+            findings.append({"rule": "L9", "key": f"L9|stale|{a}", "msg": f"audited package-entry decider {a} matches nothing any more; remove it", "loc": "tables/e5_tables.json", "detail": {}})
+    if n_sw < 4:
+        raise E5Error(f"L9: only {n_sw} branches in the read_dir loop (6 counted by hand)")
+    return findings, obl, {"l9_loop_blocks": len(loop), "l9_branches": n_sw, "l9_deciders": len(seen)}
